@@ -32,9 +32,20 @@ TransTable(c) ==
 
 FName == <<116, 101, 120, 116>>     \* Run() names its input "text"
 
-CmdResult(c, cmd, t) ==
-  LET defs == IF Has(c, "defs") THEN c.defs ELSE <<>>
-      E    == Expect(t, defs, cmd.body, cmd.amt)
+(* definitions may stand between the commands (`defs_before` of a command): *)
+(* a command sees the definitions made before it, a later definition of a   *)
+(* name replacing the earlier one from there on                             *)
+DefsUpTo(c, j) ==
+  (IF Has(c, "defs") THEN c.defs ELSE <<>>)
+    \o Cat([n \in 1..j |-> IF Has(c.cmds[n], "defs_before") THEN c.cmds[n].defs_before ELSE <<>>])
+LastOnly(ds) == SelectSeq([n \in 1..Len(ds) |-> [d |-> ds[n], keep |-> \A n2 \in (n + 1)..Len(ds) : ds[n2].name # ds[n].name]],
+                          LAMBDA x : x.keep)
+EffDefs(c, j) == LET L == LastOnly(DefsUpTo(c, j)) IN [n \in 1..Len(L) |-> L[n].d]
+
+(* `set x to matches <command>` compiles its command and is inert when run  *)
+CmdResultD(c, cmd, t, defs) ==
+  IF cmd.kind = "setmatches" THEN [ms |-> <<>>, firm |-> TRUE, undef |-> FALSE, noret |-> FALSE, why |-> ""] ELSE
+  LET E    == Expect(t, defs, cmd.body, cmd.amt)
   IN IF cmd.kind = "find" THEN [ms |-> E.ms, firm |-> E.firm, undef |-> FALSE, noret |-> FALSE, why |-> ""]
      ELSE LET tt == TransTable(c)
               R  == [j \in 1..Len(E.ms) |-> Replacement(t, E.ms[j], Len(E.ms), FName, tt, cmd.with)]
@@ -48,6 +59,9 @@ CmdResult(c, cmd, t) ==
               noret |-> \E j \in 1..Len(E.ms) : R[j].noreturn,
               why   |-> IF \A j \in 1..Len(E.ms) : R[j].ok THEN ""
                         ELSE R[CHOOSE j \in 1..Len(E.ms) : ~R[j].ok].undefwhy]
+
+CmdResult(c, cmd, t) == CmdResultD(c, cmd, t, IF Has(c, "defs") THEN c.defs ELSE <<>>)
+CmdResultAt(c, j, t) == CmdResultD(c, c.cmds[j], t, EffDefs(c, j))
 
 (* process code whose termination the bounded evaluator cannot establish is *)
 (* not run (C09/C10/C12 speak about terminating process code only)          *)
@@ -63,7 +77,7 @@ SkippedResult(t) == [t |-> t, ms |-> <<>>, firm |-> FALSE, undef |-> FALSE, nore
 
 TextResult(c, t) ==
   IF ~Gate(c, t) THEN SkippedResult(t) ELSE
-  LET rs == [j \in 1..Len(c.cmds) |-> CmdResult(c, c.cmds[j], t)]
+  LET rs == [j \in 1..Len(c.cmds) |-> CmdResultAt(c, j, t)]
   IN [t     |-> t,
       ms    |-> Cat([j \in 1..Len(c.cmds) |-> rs[j].ms]),
       firm  |-> \A j \in 1..Len(c.cmds) : rs[j].firm,
